@@ -217,6 +217,10 @@ pub struct Z { pub g: Ghost<int> }
 pub trait ZL: Sized { spec fn v(&self) -> int; }
 impl ZL for Z { open spec fn v(&self) -> int { self.g@ } }
 impl ZL for &Z { open spec fn v(&self) -> int { self.g@ } }
+impl Z {
+    #[verifier::external_body] pub fn clone(&self) -> (r: Z) ensures r.v() == self.v() { unimplemented!() }
+    #[verifier::external_body] pub fn zero() -> (r: Z) ensures r.v() == 0 { unimplemented!() }
+}
 #[verifier::external_body] pub fn neg_<A: ZL>(a: A) -> (r: Z) ensures r.v() == -a.v() { unimplemented!() }
 
 /// abstract tangle (crossingless 1-manifold): only emptiness is observed by the kernel
@@ -235,6 +239,7 @@ pub open spec fn kcomp(c: CobComp, x: int, y: int) -> Key { Key { empty: false, 
 pub struct Cob { pub k: Ghost<Key> }
 impl Cob {
     #[verifier::external_body] pub fn empty() -> (r: Cob) ensures r.k@ == kempty() { unimplemented!() }
+    #[verifier::external_body] pub fn is_empty(&self) -> (r: bool) ensures r == (self.k@ == kempty()) { unimplemented!() }
     #[verifier::external_body] pub fn from(c: CobComp) -> (r: Cob)
         ensures r.k@ == (Key { empty: false, src: c.src.id@, tgt: c.tgt.id@, g: c.genus as int, x: c.dots.0 as int, y: c.dots.1 as int }) { unimplemented!() }
 }
@@ -245,6 +250,13 @@ pub struct Lc;
 impl Lc {
     #[verifier::external_body] pub fn zero() -> (r: LcM) ensures forall|k: Key| r.at(k) == 0 { unimplemented!() }
     #[verifier::external_body] pub fn from(c: Cob) -> (r: LcM) ensures forall|k: Key| r.at(k) == (if k == c.k@ { 1int } else { 0int }) { unimplemented!() }
+}
+impl LcM {
+    /// Lc stores exactly the non-zero terms (proved in unit lc): nterms / any_term in terms of the coefficient function
+    #[verifier::external_body] pub fn nterms(&self) -> (r: usize)
+        ensures (r == 0) <==> (forall|k: Key| self.at(k) == 0), r <= 1 ==> forall|k1: Key, k2: Key| self.at(k1) != 0 && self.at(k2) != 0 ==> k1 == k2 { unimplemented!() }
+    #[verifier::external_body] pub fn any_term(&self) -> (r: Option<(&Cob, &Z)>)
+        ensures r.is_none() <==> (forall|k: Key| self.at(k) == 0), r.is_some() ==> (r.unwrap().1.v() == self.at(r.unwrap().0.k@) && r.unwrap().1.v() != 0) { unimplemented!() }
 }
 #[verifier::external_body] pub fn lc_add(a: LcM, b: LcM) -> (r: LcM) ensures forall|k: Key| r.at(k) == a.at(k) + b.at(k) { unimplemented!() }
 #[verifier::external_body] pub fn lc_scale<B: ZL>(a: LcM, b: B) -> (r: LcM) ensures forall|k: Key| r.at(k) == a.at(k) * b.v() { unimplemented!() }
@@ -346,6 +358,16 @@ impl CobComp {
     //@body impl/CobComp/part_eval
     //@+ sig
     //@| fn part_eval<R>(&self, h: &R, t: &R) -> LcCob<R> where R: Ring, for<'x> &'x R: RingOps<R>
+}
+
+impl CobComp {
+    /// the value of a closed component: the counit applied to X^x Y^y (2X - h)^g
+    pub fn eval(&self, h: &Z, t: &Z) -> (r: Z)
+        requires self.genus + self.dots.0 + self.dots.1 <= usize::MAX,
+        ensures closed(self), r.v() == poly(self.genus as nat, self.dots.0 as nat, self.dots.1 as nat, h.v(), t.v()).1,
+    //@body impl/CobComp/eval subst=R:Z
+    //@+ sig
+    //@| fn eval<R>(&self, h: &R, t: &R) -> R where R: Ring, for<'x> &'x R: RingOps<R>
 }
 
 /// CobComp::part_eval::eval  (nested fn)
